@@ -599,6 +599,7 @@ func runTTL(w *world) {
 			TTLus    int64  `json:"ttl_us"`
 			BeforeUs int64  `json:"rem_before_us"` // NotAfter - clock before the call (loader form)
 			AfterUs  int64  `json:"rem_after_us"`
+			ProvUs   int64  `json:"rem_prov_us"` // NotAfter - clock when the certificate provider returned (loader form)
 			Err      string `json:"err"`
 		}
 		var ob obs
@@ -616,10 +617,12 @@ func runTTL(w *world) {
 			ob.BeforeUs, ob.AfterUs = r.Microseconds(), r.Microseconds()
 		case "loader":
 			host := fmt.Sprintf("ttl%d.example.com", i)
-			var notAfter time.Time
+			var notAfter, provDone time.Time
 			w.prov.mu.Lock()
 			w.prov.mk = func(name string) *tls.Certificate {
 				notAfter = time.Now().Add(r)
+				time.Sleep(120 * time.Millisecond) // issuance / storage round trip: the provider takes its time
+				provDone = time.Now()
 				return &tls.Certificate{Certificate: [][]byte{{1, 2, 3}}, PrivateKey: w.prov.key, Leaf: &x509.Certificate{NotAfter: notAfter}}
 			}
 			w.prov.mu.Unlock()
@@ -635,6 +638,7 @@ func runTTL(w *world) {
 			ob.TTLus = ttl.Microseconds()
 			ob.BeforeUs = notAfter.Sub(before).Microseconds()
 			ob.AfterUs = notAfter.Sub(after).Microseconds()
+			ob.ProvUs = notAfter.Sub(provDone).Microseconds()
 		}
 		verifkit.Answer(i, ob)
 	})
